@@ -80,6 +80,8 @@ pub enum WClass {
     Zero,
     /// a token made of digits (already a numeral, not a number word)
     Digits,
+    /// two vocabulary words joined into one token (hyphenated in en/fr/es/pt, glued in de/nl/it): mostly invalid compounds
+    Compound,
 }
 
 /// One element of a grammar-noise stream
@@ -93,7 +95,7 @@ pub struct NoiseTok {
 pub fn noise_stream(rng: &mut Rng, lex: &Lexicon, len: usize) -> Vec<NoiseTok> {
     let mut out = Vec::with_capacity(len);
     for _ in 0..len {
-        let c = rng.weighted(&[41, 8, 6, 5, 8, 16, 12, 4, 3]);
+        let c = rng.weighted(&[38, 8, 6, 5, 8, 16, 12, 4, 3, 3]);
         let (text, class) = match c {
             0 => (rng.pick(&lex.number_words).clone(), WClass::Number),
             1 => {
@@ -109,7 +111,19 @@ pub fn noise_stream(rng: &mut Rng, lex: &Lexicon, len: usize) -> Vec<NoiseTok> {
             5 => (rng.pick(&lex.fillers).clone(), WClass::Filler),
             6 => (rng.pick_str(&PUNCT).to_string(), WClass::Punct),
             7 => (lex.zero.to_string(), WClass::Zero),
-            _ => (rng.pick_str(&["2", "30", "7", "1999", "05", "١٢", "½", "3,5"]).to_string(), WClass::Digits),
+            8 => (rng.pick_str(&["2", "30", "7", "1999", "05", "١٢", "½", "3,5"]).to_string(), WClass::Digits),
+            _ => {
+                let pick = |rng: &mut Rng| -> String {
+                    match rng.below(6) {
+                        0 => lex.zero.to_string(),
+                        1 => lex.conj.to_string(),
+                        _ => rng.pick(&lex.number_words).clone(),
+                    }
+                };
+                let (a, b) = (pick(rng), pick(rng));
+                let glue = if matches!(lex.code, "de" | "nl" | "it") && rng.chance(2, 3) { "" } else { "-" };
+                (format!("{}{}{}", a, glue, b), WClass::Compound)
+            }
         };
         out.push(NoiseTok { text, class });
     }
